@@ -120,6 +120,48 @@ def guarded_index(body, flow, fln, bi, t):
     return None
 
 
+SHRINKERS = ("remove", "truncate", "clear", "pop", "drain", "retain", "retain_mut", "swap_remove", "split_off", "dedup", "dedup_by", "dedup_by_key", "pop_front",
+             "pop_back", "take")
+
+
+def position_index(body, flow, fln, bi, t):
+    """`coll[p]` where p is the payload of `coll.iter().position(..)` (or rposition) over the SAME collection, and nothing in the function shrinks
+    that collection: in bounds by construction."""
+    if len(t["args"]) < 2:
+        return None
+    idx = op_place(t["args"][1])
+    coll = fln.canon_op(t["args"][0])
+    if idx is None or coll is None or idx["pr"]:
+        return None
+    srcs = fln.sources(idx["l"], through_calls=("Try::branch", "Option::unwrap", "Option::expect", "Option::ok_or", "Option::ok_or_else", "Result::unwrap", "Result::expect"))
+    pos = [x for x in srcs if x[0] == "call" and (x[2].get("callee") or "").split("::")[-1] in ("position", "rposition") and "Iterator" in (x[2].get("callee") or "")]
+    if not pos or len(pos) != len(srcs):
+        return None
+    for x in pos:
+        recv = op_place(x[2]["args"][0])
+        if recv is None:
+            return None
+        same = False
+        for l in fln.backward({recv["l"]}, through_calls=("slice::iter", "Deref::deref", "Vec::iter", "IntoIterator::into_iter", "VecDeque::iter")):
+            for _b, si, d in fln.defs.get(l, []):
+                if si == "term":
+                    for a in d["args"][:1]:
+                        c = fln.canon_op(a)
+                        if c and c == coll:
+                            same = True
+                elif d["rv"]["k"] == "ref" and fln.canon_place(d["rv"]["p"]) == coll:
+                    same = True
+        if not same:
+            return None
+    for b2, t2 in body.calls():
+        m = (t2.get("callee") or "").split("::")[-1]
+        if m in SHRINKERS and t2["args"]:
+            c = fln.canon_op(t2["args"][0])
+            if c and c == coll:
+                return None
+    return "index is the result of position() over the same collection, which nothing here shrinks"
+
+
 def guarded_bounds(body, flow, fln, bi, t):
     """the MIR bounds assert of a slice / array index `s[idx]` (ops = [len, idx]) under the same dominating `idx < s.len()` test that
     guarded_index recognises for Vec indexing."""
@@ -314,7 +356,7 @@ def collect_sinks(F, key, summ=None, params=None):
                     m in ("index", "index_mut") or "vec::Vec" in c or "vec_deque" in c or "slice" in c or "::str::" in c or "string::String" in c):
                 why = None
                 if m in ("index", "index_mut"):
-                    why = guarded_index(body, flow, fln, bi, t) or const_index_under_arity(body, flow, fln, bi, t)
+                    why = guarded_index(body, flow, fln, bi, t) or const_index_under_arity(body, flow, fln, bi, t) or position_index(body, flow, fln, bi, t)
                     if why is None:
                         # constant index into a collection whose length was just checked is left to the census
                         pass
